@@ -155,7 +155,7 @@ def value_pools(rng, spectroscopic):
         'max_wavelength': lambda: 750.0 + rng.randint(0, 500) * 0.5,
         'min_wavelength': lambda: 100.0 + rng.randint(0, 500) * 0.5,
         'ray_extinction_prob': lambda: rng.choice([0.0, 0.01, 0.25, 0.5, 1.0, rng.randint(0, 100) / 128.0]),
-        'ray_max_depth': lambda: rng.randint(1, 1000),
+        'ray_max_depth': lambda: rng.randint(25, 1000),                # observe() wants max depth >= min depth
         'ray_extinction_min_depth': lambda: rng.randint(1, 20),      # 0 is accepted by the setter but refused by observe()
         'ray_importance_sampling': lambda: rng.random() < 0.5,
         'ray_important_path_weight': lambda: rng.randint(0, 128) / 128.0,
@@ -196,6 +196,7 @@ class Impl:
         self.pools = value_pools(rng, self.spectro)
         self.wrong_kinds = WRONG_KIND.get(cinfo['accepted'][0] if cinfo['accepted'] else '', ['int'])
         self.scratch = make_member(self.member_kind, 'scratch')
+        self._scratch_pipes = list(getattr(self.scratch, 'pipelines', []))
         attrs = ['name']
         for d in self.desc.values():
             for a in self._attrs_of(d):
@@ -226,6 +227,17 @@ class Impl:
             return 'ok', self.U.content(attr, getattr(self.scratch, attr))
         except Exception as e:  # noqa
             return ename(exc_kind(e)), 0
+        finally:
+            self.unshare(attr)
+
+    def unshare(self, attr):
+        """the scratch observer must not keep sharing mutable collaborators (pipelines) with the members that receive the
+        same value next: later probes of display_progress / accumulate would otherwise reach into the members"""
+        if attr == 'pipelines':
+            try:
+                self.scratch.pipelines = self._scratch_pipes
+            except Exception:  # noqa
+                pass
 
     def obj_token(self, attr, v):
         from raysect.core.workflow import RenderEngine
@@ -731,6 +743,8 @@ def search(ctx, sc, only=None):
     rng = ctx.rng
     U = Universe()
     for c in sc['classes']:
+        if only and c['name'] != only[0]:
+            continue
         mod = importlib.import_module(c['file'][:-3].replace('/', '.'))
         cls = getattr(mod, c['name'])
         im = Impl(c, sc['table'], U, rng)
@@ -749,8 +763,11 @@ def search(ctx, sc, only=None):
 
 def _ref(im, mattr, v):
     """what a lone observer reports after `observer.mattr = v`"""
-    setattr(im.scratch, mattr, v)
-    return im.U.canon(mattr, getattr(im.scratch, mattr))
+    try:
+        setattr(im.scratch, mattr, v)
+        return im.U.canon(mattr, getattr(im.scratch, mattr))
+    finally:
+        im.unshare(mattr)
 
 
 def search_attr(ctx, im, cls, attr, n):
@@ -860,6 +877,16 @@ def search_membership(ctx, im, cls):
             if st != 'ok' or len(g) != i + 1:
                 ctx.fail(sig + 'add:rejects-own-type', 'adding a %s to %s: %s, len %d' % (im.member_kind, im.name, st, len(g)), dict(cls=im.name, attr='add', n=n))
                 return
+        if im.c['family'] == 'observer0D':
+            ms2 = [make_member(im.member_kind, 'c%d' % i) for i in range(n)]
+            try:
+                g2 = cls(observers=ms2)
+                okk = len(g2) == n and all(a is b for a, b in zip(g2.observers, ms2)) and all(o.parent is g2 for o in ms2)
+            except Exception:  # noqa
+                okk = False
+            if not okk:
+                ctx.fail(sig + '__init__:observers', '%s(observers=[%d members]) does not yield these members with the group as parent' % (im.name, n),
+                         dict(cls=im.name, attr='add', n=n))
         rep = dict(cls=im.name, attr='__getitem__', n=n)
         for i in range(n):
             if outcome(lambda: g[i]) != 'ok' or g[i] is not ms[i] or g[i - n] is not ms[i]:
@@ -992,7 +1019,19 @@ def run(ctx, only=None):
         for m in meta_samples:
             ctx.samples.append({k: m[k] for k in ('cls', 'attr', 'kind', 'n', 'value') if k in m})
 
-    # 4. S (always: cheap monitor; it is also what turns a broken table_wf into failing inputs)
+    # 4. S (always: cheap monitor; it is also what turns a broken table_wf into failing inputs); corpus first, then the
+    #    descriptors Lean reports as inadmissible, then everything
+    if only is None:
+        cdir = os.path.join(os.path.dirname(LEAN), 'corpus', 'C15')
+        seeds = []
+        if os.path.isdir(cdir):
+            for f in sorted(os.listdir(cdir)):
+                if f.endswith('.json'):
+                    e = json.load(open(os.path.join(cdir, f)))
+                    seeds.append((e['cls'], e['attr']))
+                    ctx.count('S:corpus')
+        for pair in seeds + [p for p in bad_pairs if p not in seeds]:
+            search(ctx, sc, pair)
     search(ctx, sc, only)
 
     # 5. every inadmissible descriptor must be explained by a failing input on the implementation
